@@ -497,7 +497,12 @@ func RunC07(r *core.Rng, run, seed uint64, tier string, cov *Cov) []*Violation {
 func runC07Invalid(r *core.Rng, run, seed uint64, cov *Cov, cfg gen.Cfg) []*Violation {
 	cfg.ExactRaceSep = false
 	doc := gen.Generate(r, cfg)
-	inv := gen.MalformPrecise(r, doc, 100000+r.Intn(800000))
+	var inv *gen.Invalid
+	if r.Chance(0.2) {
+		inv = gen.IndentClash(r, doc, 100000+r.Intn(800000))
+	} else {
+		inv = gen.MalformPrecise(r, doc, 100000+r.Intn(800000))
+	}
 	if inv == nil {
 		return nil
 	}
@@ -549,6 +554,17 @@ func observeInvalid(c *Case, cov *Cov) []*Violation {
 	for j, d := range s.Dumps {
 		if d.Start <= mi && mi < d.End {
 			dj = j
+		}
+	}
+	if inv.PrevDump {
+		dj--
+	} else if dj < 0 {
+		// the marker is plain text after the dump: the dump that must stop is
+		// the last one before it
+		for j, d := range s.Dumps {
+			if d.End <= mi {
+				dj = j
+			}
 		}
 	}
 	if dj < 0 {
